@@ -724,4 +724,504 @@ theorem xrunMain_not_line (xc : XcmpCore) (sim : SimCore) {args : List String} (
     | none => simp [xrunBody, hfn]
     | some f => exact absurd ⟨_, line_of_xrunLoop ho hfn⟩ h
 
+/-! ### What the bodies do for a given reading -/
+
+/-- The source named on the command line is accepted by the stage the command line selects
+    (and, in binary mode, the output file can be created). -/
+def AsmSucceeds (core : AsmCore) (fs : Fs) (c : AsmCmd) : Prop :=
+  ∃ src, fs.read c.file = some src ∧
+    if c.tokensOnly = true ∧ c.instrsOnly = false then ∃ u, core.lex src = .ok u
+    else ∃ img, core.assemble src = .ok img ∧ (c.instrsOnly = true ∨ fs.canWrite c.out = true)
+
+/-- Binary mode, source accepted with image `img`, output creatable. -/
+def AsmAccepted (core : AsmCore) (fs : Fs) (c : AsmCmd) (img : Bytes) : Prop :=
+  c.tokensOnly = false ∧ c.instrsOnly = false ∧
+  ∃ src, fs.read c.file = some src ∧ core.assemble src = .ok img ∧ fs.canWrite c.out = true
+
+theorem hexasmBody_status (core : AsmCore) (fs : Fs) (c : AsmCmd) :
+    (hexasmBody core c.opts fs).status = 0 ↔ AsmSucceeds core fs c := by
+  rcases c with ⟨t, i, f, out⟩
+  simp only [hexasmBody, AsmCmd.opts, AsmSucceeds, emitBin]
+  cases hr : fs.read f with
+  | none => simp
+  | some src =>
+    cases t <;> cases i <;> simp
+    · cases core.assemble src <;> by_cases hw : fs.canWrite out = true <;> simp [hw]
+    · cases core.assemble src <;> simp
+    · cases core.lex src <;> simp
+    · cases core.assemble src <;> simp
+
+theorem hexasmBody_accepted (core : AsmCore) (fs : Fs) (c : AsmCmd) (img : Bytes)
+    (h : AsmAccepted core fs c img) :
+    hexasmBody core c.opts fs = ⟨0, fs.write c.out img, false, .none⟩ := by
+  rcases c with ⟨t, i, f, out⟩
+  obtain ⟨rfl, rfl, src, hr, ha, hw⟩ := h
+  simp only at hr ha hw
+  simp [hexasmBody, AsmCmd.opts, emitBin, hr, ha, hw]
+
+theorem hexasmBody_rejected (core : AsmCore) (fs : Fs) (c : AsmCmd) (h : ¬ AsmSucceeds core fs c) :
+    (hexasmBody core c.opts fs).status = 1 ∧ (hexasmBody core c.opts fs).fs = fs ∧
+    (hexasmBody core c.opts fs).stderr = true := by
+  rcases c with ⟨t, i, f, out⟩
+  simp only [hexasmBody, AsmCmd.opts, AsmSucceeds, emitBin] at h ⊢
+  cases hr : fs.read f with
+  | none => simp
+  | some src =>
+    simp only [hr] at h
+    cases t <;> cases i <;> simp at h ⊢
+    · cases ha : core.assemble src <;> by_cases hw : fs.canWrite out = true <;> simp [ha, hw] at h ⊢
+    · cases ha : core.assemble src <;> simp [ha] at h ⊢
+    · cases ha : core.lex src <;> simp [ha] at h ⊢
+    · cases ha : core.assemble src <;> simp [ha] at h ⊢
+
+theorem hexasmBody_listing (core : AsmCore) (fs : Fs) (c : AsmCmd)
+    (h : c.tokensOnly = true ∨ c.instrsOnly = true) : (hexasmBody core c.opts fs).fs = fs := by
+  rcases c with ⟨t, i, f, out⟩
+  simp only [hexasmBody, AsmCmd.opts]
+  cases hr : fs.read f with
+  | none => simp
+  | some src =>
+    cases t <;> cases i <;> simp at h ⊢
+    · cases core.assemble src <;> simp
+    · cases core.lex src <;> simp
+    · cases core.assemble src <;> simp
+
+def XcmpSucceeds (xc : XcmpCore) (fs : Fs) (c : XcmpCmd) : Prop :=
+  ∃ src img, fs.read c.file = some src ∧ xc.compile c.action c.mem src = .ok img ∧
+    (c.action = .binary → fs.canWrite c.out = true)
+
+def XcmpAccepted (xc : XcmpCore) (fs : Fs) (c : XcmpCmd) (img : Bytes) : Prop :=
+  c.action = .binary ∧
+  ∃ src, fs.read c.file = some src ∧ xc.compile .binary c.mem src = .ok img ∧ fs.canWrite c.out = true
+
+theorem xcmpBody_status (xc : XcmpCore) (fs : Fs) (c : XcmpCmd) :
+    (xcmpBody xc c.opts fs).status = 0 ↔ XcmpSucceeds xc fs c := by
+  rcases c with ⟨a, m, f, out⟩
+  simp only [xcmpBody, XcmpCmd.opts, XcmpSucceeds, driverRunCatch, driverRun, emitBin, ↓reduceIte]
+  cases hr : fs.read f with
+  | none => simp [resultOfRun]
+  | some src =>
+    simp only []
+    cases hc : xc.compile a m src with
+    | error l => simp [resultOfRun, hc]
+    | exn => simp [resultOfRun, hc]
+    | ok img =>
+      by_cases hb : a = .binary
+      · subst hb
+        by_cases hw : fs.canWrite out = true <;> simp [resultOfRun, hw, hc]
+      · simp [resultOfRun, hb, hc]
+
+theorem xcmpBody_accepted (xc : XcmpCore) (fs : Fs) (c : XcmpCmd) (img : Bytes)
+    (h : XcmpAccepted xc fs c img) :
+    xcmpBody xc c.opts fs = ⟨0, fs.write c.out img, false, if c.mem then .text else .none⟩ := by
+  rcases c with ⟨a, m, f, out⟩
+  obtain ⟨rfl, src, hr, ha, hw⟩ := h
+  simp only at hr ha hw
+  cases m <;> simp [xcmpBody, XcmpCmd.opts, driverRunCatch, driverRun, emitBin, resultOfRun, hr, ha, hw,
+    stdoutOfAction]
+
+theorem xcmpBody_rejected (xc : XcmpCore) (fs : Fs) (c : XcmpCmd) (h : ¬ XcmpSucceeds xc fs c) :
+    (xcmpBody xc c.opts fs).status = 1 ∧ (xcmpBody xc c.opts fs).fs = fs ∧
+    (xcmpBody xc c.opts fs).stderr = true := by
+  rcases c with ⟨a, m, f, out⟩
+  simp only [xcmpBody, XcmpCmd.opts, XcmpSucceeds, driverRunCatch, driverRun, emitBin, ↓reduceIte] at h ⊢
+  cases hr : fs.read f with
+  | none => simp [resultOfRun]
+  | some src =>
+    simp only [hr] at h
+    simp only []
+    cases hc : xc.compile a m src with
+    | error l => simp [resultOfRun]
+    | exn => simp [resultOfRun]
+    | ok img =>
+      by_cases hb : a = .binary
+      · subst hb
+        by_cases hw : fs.canWrite out = true <;> simp [resultOfRun, hw, hc] at h ⊢
+      · simp [hb, hc] at h
+
+theorem xcmpBody_listing (xc : XcmpCore) (fs : Fs) (c : XcmpCmd) (h : c.action ≠ .binary) :
+    (xcmpBody xc c.opts fs).fs = fs := by
+  rcases c with ⟨a, m, f, out⟩
+  simp only at h
+  simp only [xcmpBody, XcmpCmd.opts, driverRunCatch, driverRun, ↓reduceIte, h]
+  cases hr : fs.read f with
+  | none => simp [resultOfRun]
+  | some src =>
+    simp only []
+    cases hc : xc.compile a m src <;> simp [resultOfRun]
+
+/-! hexsim -/
+
+theorem hexsimBody_run (sim : SimCore) (fs : Fs) (c : SimCmd) (hd : c.dump = false) :
+    hexsimBody sim c.opts fs = simulate sim c.trace c.maxCycles c.file fs := by
+  rcases c with ⟨d, t, m, f⟩
+  simp only at hd
+  simp [hexsimBody, SimCmd.opts, hd]
+
+theorem simulate_exited (sim : SimCore) (fs : Fs) (t : Bool) (m : Nat) (f : String) (img : Bytes) (v : Word)
+    (hr : fs.read f = some img) (hv : sim.run t m img = .exited v) :
+    simulate sim t m f fs = ⟨v.toNat % 256, fs, false, .program⟩ := by
+  simp [simulate, hr, hv]
+
+theorem simulate_fs (sim : SimCore) (fs : Fs) (t : Bool) (m : Nat) (f : String) :
+    (simulate sim t m f fs).fs = fs := by
+  unfold simulate
+  cases fs.read f with
+  | none => rfl
+  | some img => simp only []; cases sim.run t m img <;> rfl
+
+theorem simulate_failed (sim : SimCore) (fs : Fs) (t : Bool) (m : Nat) (f : String)
+    (h : ∀ img v, fs.read f = some img → sim.run t m img ≠ .exited v) :
+    (simulate sim t m f fs).status = 1 ∧ (simulate sim t m f fs).stderr = true := by
+  unfold simulate
+  cases hr : fs.read f with
+  | none => simp
+  | some img =>
+    cases hv : sim.run t m img with
+    | exited v => exact absurd hv (h img v hr)
+    | threw => simp [hv]
+
+
+theorem xcmpBody_binary_rejected (xc : XcmpCore) (fs : Fs) (c : XcmpCmd) (hb : c.action = .binary)
+    (h : ¬ XcmpSucceeds xc fs c) : xcmpBody xc c.opts fs = ⟨1, fs, true, .none⟩ := by
+  rcases c with ⟨a, m, f, out⟩
+  simp only at hb
+  subst hb
+  simp only [xcmpBody, XcmpCmd.opts, XcmpSucceeds, driverRunCatch, driverRun, emitBin, ↓reduceIte] at h ⊢
+  cases hr : fs.read f with
+  | none => simp [resultOfRun]
+  | some src =>
+    simp only [hr] at h
+    simp only []
+    cases hc : xc.compile .binary m src with
+    | error l => simp [resultOfRun]
+    | exn => simp [resultOfRun]
+    | ok img =>
+      by_cases hw : fs.canWrite out = true <;> simp [resultOfRun, hw, hc] at h ⊢
+
+/-! ### xrun -/
+
+/-- xrun's compile step succeeds with image `img` (written to `a.bin`). -/
+def XrunCompiles (xc : XcmpCore) (fs : Fs) (f : String) (img : Bytes) : Prop :=
+  ∃ src, fs.read f = some src ∧ xc.compile .binary false src = .ok img ∧ fs.canWrite "a.bin" = true
+
+theorem xrunCompiles_iff (xc : XcmpCore) (fs : Fs) (f : String) (img : Bytes) :
+    XrunCompiles xc fs f img ↔ XcmpAccepted xc fs ⟨.binary, false, f, "a.bin"⟩ img := by
+  simp [XrunCompiles, XcmpAccepted]
+
+theorem xrunBody_compiled (xc : XcmpCore) (sim : SimCore) (fs : Fs) (c : RunCmd) (img : Bytes)
+    (h : XrunCompiles xc fs c.file img) :
+    xrunBody xc sim c.opts fs = simulate sim c.trace c.maxCycles "a.bin" (fs.write "a.bin" img) := by
+  rcases c with ⟨t, m, f⟩
+  obtain ⟨src, hr, hc, hw⟩ := h
+  simp only at hr hc hw
+  simp [xrunBody, RunCmd.opts, driverRunCatch, driverRun, emitBin, hr, hc, hw]
+
+theorem xrunBody_failed (xc : XcmpCore) (sim : SimCore) (fs : Fs) (c : RunCmd)
+    (h : ¬ ∃ img, XrunCompiles xc fs c.file img) :
+    xrunBody xc sim c.opts fs = ⟨1, fs, true, .none⟩ := by
+  rcases c with ⟨t, m, f⟩
+  simp only [XrunCompiles, not_exists] at h
+  simp only [xrunBody, RunCmd.opts, driverRunCatch, driverRun, emitBin, ↓reduceIte]
+  cases hr : fs.read f with
+  | none => simp
+  | some src =>
+    simp only []
+    cases hc : xc.compile .binary false src with
+    | error l => simp
+    | exn => simp
+    | ok img =>
+      by_cases hw : fs.canWrite "a.bin" = true
+      · exact absurd ⟨hr, hc, hw⟩ (h img src)
+      · simp [hw]
+
+/-- Sequential composition of two tool runs in the shell sense (`a && b`, keeping `a`'s result
+    when it fails). -/
+def Result.andThen (r : Result) (k : Fs → Result) : Result := if r.status = 0 then k r.fs else r
+
+theorem files_nonFiles_append (items : List Item) (g : String) :
+    files (nonFiles items ++ [.file g]) = [g] := by
+  induction items with
+  | nil => rfl
+  | cons i is ih => cases i <;> simp [nonFiles, files, ih]
+
+theorem hasFlag_nonFiles_append (ns : List String) (items : List Item) (g : String) :
+    hasFlag ns (nonFiles items ++ [.file g]) = hasFlag ns items := by
+  induction items with
+  | nil => rfl
+  | cons i is ih => cases i <;> simp [nonFiles, hasFlag, ih]
+
+theorem lastSome_nonFiles_append {α : Type} (fn : Item → Option α) (hfn : ∀ f, fn (.file f) = none)
+    (items : List Item) (g : String) :
+    lastSome fn (nonFiles items ++ [.file g]) = lastSome fn items := by
+  induction items with
+  | nil => simp [nonFiles, lastSome, hfn]
+  | cons i is ih =>
+    cases i <;> simp only [nonFiles, lastSome, List.cons_append, ih, hfn]
+    cases lastSome fn is <;> rfl
+
+theorem cyclesParse_nonFiles_append (items : List Item) (g : String) :
+    cyclesParse (nonFiles items ++ [.file g]) = cyclesParse items := by
+  induction items with
+  | nil => rfl
+  | cons i is ih => cases i <;> simp [nonFiles, cyclesParse, ih]
+
+theorem render_append (a b : List Item) : render (a ++ b) = render a ++ render b := by
+  induction a with
+  | nil => rfl
+  | cons i is ih => simp [render, ih]
+
+theorem hasFlag_dump_xrun (items : List Item) (hv : ∀ i ∈ items, i.Valid xrunSyn) :
+    hasFlag ["-d", "--dump"] items = false := by
+  induction items with
+  | nil => rfl
+  | cons i is ih =>
+    have hi := hv i List.mem_cons_self
+    have ih' := ih (fun j hj => hv j (List.mem_cons_of_mem _ hj))
+    cases i with
+    | flag n =>
+      simp only [Item.Valid, xrunSyn, List.mem_cons, List.not_mem_nil, or_false] at hi
+      rcases hi with rfl | rfl <;> simp [hasFlag, ih']
+    | opt n v => simpa [hasFlag] using ih'
+    | file f => simpa [hasFlag] using ih'
+
+theorem valid_sim_of_xrun (items : List Item) (hv : ∀ i ∈ items, i.Valid xrunSyn) :
+    ∀ i ∈ nonFiles items ++ [.file "a.bin"], i.Valid hexsimSyn := by
+  induction items with
+  | nil =>
+    intro i hi
+    simp only [nonFiles, List.nil_append, List.mem_singleton] at hi
+    subst hi
+    simp [Item.Valid, hexsimSyn]
+  | cons j js ih =>
+    have hj := hv j List.mem_cons_self
+    have ih' := ih (fun k hk => hv k (List.mem_cons_of_mem _ hk))
+    cases j with
+    | flag n =>
+      intro i hi
+      simp only [nonFiles, List.cons_append, List.mem_cons] at hi
+      rcases hi with rfl | hi
+      · simp only [Item.Valid, xrunSyn, List.mem_cons, List.not_mem_nil, or_false] at hj
+        rcases hj with rfl | rfl <;> simp [Item.Valid, hexsimSyn]
+      · exact ih' i hi
+    | opt n v =>
+      intro i hi
+      simp only [nonFiles, List.cons_append, List.mem_cons] at hi
+      rcases hi with rfl | hi
+      · simp only [Item.Valid, xrunSyn, List.mem_cons, List.not_mem_nil, or_false] at hj
+        subst hj; simp [Item.Valid, hexsimSyn]
+      · exact ih' i hi
+    | file f => simpa [nonFiles] using ih'
+
+/-- A file name xrun accepts (no leading `-`) is also a file name for xcmp. -/
+theorem valid_xcmp_file_of_xrun (f : String) (h : (Item.file f).Valid xrunSyn) :
+    (Item.file f).Valid xcmpSyn := by
+  simp only [Item.Valid, xrunSyn, forall_const] at h
+  obtain ⟨_, _, _, hd⟩ := h
+  have key : ∀ n ∈ xcmpSyn.help ++ xcmpSyn.flags ++ xcmpSyn.opts, dash n = true := by decide
+  simp only [Item.Valid]
+  refine ⟨?_, ?_, ?_, fun _ => hd⟩
+  · intro hm; have := key f (by simp [hm]); simp [hd] at this
+  · intro hm; have := key f (by simp [hm]); simp [hd] at this
+  · intro hm; have := key f (by simp [hm]); simp [hd] at this
+
+theorem mem_files {items : List Item} {f : String} (h : f ∈ files items) : Item.file f ∈ items := by
+  induction items with
+  | nil => simp [files] at h
+  | cons i is ih =>
+    cases i with
+    | file g =>
+      simp only [files, List.mem_cons] at h
+      rcases h with rfl | h
+      · exact List.mem_cons_self
+      · exact List.mem_cons_of_mem _ (ih h)
+    | flag n => exact List.mem_cons_of_mem _ (ih (by simpa [files] using h))
+    | opt n v => exact List.mem_cons_of_mem _ (ih (by simpa [files] using h))
+
+
+/-! ### Order of the arguments -/
+
+theorem files_perm {a b : List Item} (h : a.Perm b) : (files a).Perm (files b) := by
+  induction h with
+  | nil => exact .nil
+  | cons x _ ih => cases x <;> simp [files, ih]
+  | swap x y l =>
+    cases x <;> cases y <;> simp [files]
+    exact List.Perm.swap _ _ _
+  | trans _ _ ih1 ih2 => exact ih1.trans ih2
+
+theorem hasFlag_perm (ns : List String) {a b : List Item} (h : a.Perm b) :
+    hasFlag ns a = hasFlag ns b := by
+  induction h with
+  | nil => rfl
+  | cons x _ ih => cases x <;> simp [hasFlag, ih]
+  | swap x y l =>
+    cases x <;> cases y <;> simp [hasFlag]
+    rename_i n m
+    cases decide (n ∈ ns) <;> cases decide (m ∈ ns) <;> simp
+  | trans _ _ ih1 ih2 => exact ih1.trans ih2
+
+theorem cyclesParse_perm {a b : List Item} (h : a.Perm b) : cyclesParse a = cyclesParse b := by
+  induction h with
+  | nil => rfl
+  | cons x _ ih => cases x <;> simp [cyclesParse, ih]
+  | swap x y l =>
+    cases x <;> cases y <;> simp [cyclesParse]
+    rename_i n v m w
+    cases (stoull v).isSome <;> cases (stoull w).isSome <;> simp
+  | trans _ _ ih1 ih2 => exact ih1.trans ih2
+
+/-- The three-way case split every loop makes on the list of file arguments depends only on the
+    multiset of files. -/
+theorem perm_files_cases {x y : List String} (h : x.Perm y) :
+    (x = [] ∧ y = []) ∨ (∃ f, x = [f] ∧ y = [f]) ∨
+    (∃ f g t f' g' t', x = f :: g :: t ∧ y = f' :: g' :: t') := by
+  cases x with
+  | nil => exact .inl ⟨rfl, h.nil_eq.symm⟩
+  | cons f t =>
+    cases t with
+    | nil => exact .inr (.inl ⟨f, rfl, (List.singleton_perm.mp h).symm⟩)
+    | cons g t' =>
+      have hl := h.length_eq
+      cases y with
+      | nil => simp at hl
+      | cons a y' =>
+        cases y' with
+        | nil => simp at hl
+        | cons b y'' => exact .inr (.inr ⟨f, g, t', a, b, y'', rfl, rfl⟩)
+
+theorem hexasmMain_perm (core : AsmCore) (fs : Fs) {a b : List Item}
+    (hva : ∀ i ∈ a, i.Valid hexasmSyn) (hvb : ∀ i ∈ b, i.Valid hexasmSyn) (hp : a.Perm b)
+    (ho : lastSome (optVal asmOutNames) a = lastSome (optVal asmOutNames) b) :
+    hexasmMain core (render a) fs = hexasmMain core (render b) fs := by
+  have key : hexasmLoop (render a) {} = hexasmLoop (render b) {} := by
+    rw [hexasmLoop_render a hva, hexasmLoop_render b hvb]
+    simp only [Option.toList, List.nil_append, asmDone, hasFlag_perm _ hp, ho]
+    rcases perm_files_cases (files_perm hp) with ⟨h1, h2⟩ | ⟨f, h1, h2⟩ | ⟨_, _, _, _, _, _, h1, h2⟩ <;>
+      simp only [h1, h2]
+  unfold hexasmMain
+  rw [key]
+
+theorem xcmpMain_perm (xc : XcmpCore) (fs : Fs) {a b : List Item}
+    (hva : ∀ i ∈ a, i.Valid xcmpSyn) (hvb : ∀ i ∈ b, i.Valid xcmpSyn) (hp : a.Perm b)
+    (ho : lastSome (optVal asmOutNames) a = lastSome (optVal asmOutNames) b)
+    (hact : lastSome flagAction a = lastSome flagAction b) :
+    xcmpMain xc (render a) fs = xcmpMain xc (render b) fs := by
+  have key : xcmpLoop (render a) {} = xcmpLoop (render b) {} := by
+    rw [xcmpLoop_render a hva, xcmpLoop_render b hvb]
+    simp only [Option.toList, List.nil_append, xcmpDone, hasFlag_perm _ hp, ho, hact]
+    rcases perm_files_cases (files_perm hp) with ⟨h1, h2⟩ | ⟨f, h1, h2⟩ | ⟨_, _, _, _, _, _, h1, h2⟩ <;>
+      simp only [h1, h2]
+  unfold xcmpMain
+  rw [key]
+
+theorem hexsimMain_perm (sim : SimCore) (fs : Fs) {a b : List Item}
+    (hva : ∀ i ∈ a, i.Valid hexsimSyn) (hvb : ∀ i ∈ b, i.Valid hexsimSyn) (hp : a.Perm b)
+    (hc : lastSome cyclesVal a = lastSome cyclesVal b) :
+    hexsimMain sim (render a) fs = hexsimMain sim (render b) fs := by
+  have key : hexsimLoop (render a) {} = hexsimLoop (render b) {} := by
+    rw [hexsimLoop_render a hva, hexsimLoop_render b hvb]
+    simp only [Option.toList, List.nil_append, simDone, hasFlag_perm _ hp, hc, cyclesParse_perm hp]
+    rcases perm_files_cases (files_perm hp) with ⟨h1, h2⟩ | ⟨f, h1, h2⟩ | ⟨_, _, _, _, _, _, h1, h2⟩ <;>
+      simp only [h1, h2]
+  unfold hexsimMain
+  rw [key]
+
+theorem xrunMain_perm (xc : XcmpCore) (sim : SimCore) (fs : Fs) {a b : List Item}
+    (hva : ∀ i ∈ a, i.Valid xrunSyn) (hvb : ∀ i ∈ b, i.Valid xrunSyn) (hp : a.Perm b)
+    (hc : lastSome cyclesVal a = lastSome cyclesVal b) :
+    xrunMain xc sim (render a) fs = xrunMain xc sim (render b) fs := by
+  have key : xrunLoop (render a) {} = xrunLoop (render b) {} := by
+    rw [xrunLoop_render a hva, xrunLoop_render b hvb]
+    simp only [Option.toList, List.nil_append, runDone, hasFlag_perm _ hp, hc, cyclesParse_perm hp]
+    rcases perm_files_cases (files_perm hp) with ⟨h1, h2⟩ | ⟨f, h1, h2⟩ | ⟨_, _, _, _, _, _, h1, h2⟩ <;>
+      simp only [h1, h2]
+  unfold xrunMain
+  rw [key]
+
+
+/-- `xrun f …` is `xcmp f -o a.bin && hexsim … a.bin` (full observation), when every
+    `--max-cycles` value is a number. -/
+theorem xrunMain_eq_seq (xc : XcmpCore) (sim : SimCore) (fs : Fs) (items : List Item)
+    (hv : ∀ i ∈ items, i.Valid xrunSyn) (f : String) (hf : files items = [f])
+    (hc : cyclesParse items = true) :
+    xrunMain xc sim (render items) fs =
+      (xcmpMain xc [f, "-o", "a.bin"] fs).andThen
+        (hexsimMain sim (render (nonFiles items) ++ ["a.bin"])) := by
+  -- left: xrun
+  have hl : XrunLine (render items) (runCmdOf items f) := ⟨items, f, hv, rfl, hf, hc, rfl⟩
+  rw [xrunMain_of_line xc sim fs hl]
+  -- the compile step as an xcmp command line
+  have hfv : (Item.file f).Valid xcmpSyn :=
+    valid_xcmp_file_of_xrun f (hv _ (mem_files (by simp [hf])))
+  have hx : XcmpLine [f, "-o", "a.bin"] ⟨.binary, false, f, "a.bin"⟩ := by
+    refine ⟨[.file f, .opt "-o" "a.bin"], f, ?_, rfl, rfl, ?_⟩
+    · intro i hi
+      simp only [List.mem_cons, List.not_mem_nil, or_false] at hi
+      rcases hi with rfl | rfl
+      · exact hfv
+      · simp [Item.Valid, xcmpSyn]
+    · simp [xcmpCmdOf, lastSome, flagAction, hasFlag, optVal, asmOutNames]
+  rw [xcmpMain_of_line xc fs hx]
+  -- the simulate step as a hexsim command line
+  have hs : HexsimLine (render (nonFiles items) ++ ["a.bin"])
+      ⟨false, hasFlag ["-t", "--trace"] items, (lastSome cyclesVal items).getD 0, "a.bin"⟩ := by
+    refine ⟨nonFiles items ++ [.file "a.bin"], "a.bin", valid_sim_of_xrun items hv, ?_,
+      files_nonFiles_append _ _, ?_, ?_⟩
+    · rw [render_append]; rfl
+    · rw [cyclesParse_nonFiles_append, hc]
+    · simp only [simCmdOf, hasFlag_nonFiles_append, hasFlag_dump_xrun items hv]
+      rw [lastSome_nonFiles_append cyclesVal (fun _ => rfl)]
+  by_cases hcomp : ∃ img, XrunCompiles xc fs f img
+  · obtain ⟨img, hcomp⟩ := hcomp
+    rw [xrunBody_compiled xc sim fs (runCmdOf items f) img hcomp]
+    rw [xcmpBody_accepted xc fs _ img ((xrunCompiles_iff xc fs f img).mp hcomp)]
+    simp only [Result.andThen, ↓reduceIte]
+    rw [hexsimMain_of_line sim _ hs, hexsimBody_run sim _ _ rfl]
+    rfl
+  · rw [xrunBody_failed xc sim fs (runCmdOf items f) hcomp]
+    have : ¬ XcmpSucceeds xc fs ⟨.binary, false, f, "a.bin"⟩ := by
+      rintro ⟨src, img, h1, h2, h3⟩
+      exact hcomp ⟨img, src, h1, h2, h3 rfl⟩
+    rw [xcmpBody_binary_rejected xc fs _ rfl this]
+    simp [Result.andThen]
+
+/-- With a `--max-cycles` value that is not a number both sides fail the same way as far as
+    status, stderr and stdout go (xrun has not compiled anything yet, the pipeline has). -/
+theorem xrunMain_eq_seq_badcycles (xc : XcmpCore) (sim : SimCore) (fs : Fs) (items : List Item)
+    (hv : ∀ i ∈ items, i.Valid xrunSyn) (f : String) (hf : files items = [f])
+    (hc : cyclesParse items = false) :
+    let r := xrunMain xc sim (render items) fs
+    let p := (xcmpMain xc [f, "-o", "a.bin"] fs).andThen
+        (hexsimMain sim (render (nonFiles items) ++ ["a.bin"]))
+    r.status = 1 ∧ p.status = 1 ∧ r.stderr = true ∧ p.stderr = true ∧
+    r.stdout = .none ∧ p.stdout = .none ∧ r.fs = fs := by
+  have hr : xrunMain xc sim (render items) fs = ⟨1, fs, true, .none⟩ := by
+    unfold xrunMain
+    rw [xrunLoop_render items hv]
+    simp [hc]
+  have hfv : (Item.file f).Valid xcmpSyn :=
+    valid_xcmp_file_of_xrun f (hv _ (mem_files (by simp [hf])))
+  have hx : XcmpLine [f, "-o", "a.bin"] ⟨.binary, false, f, "a.bin"⟩ := by
+    refine ⟨[.file f, .opt "-o" "a.bin"], f, ?_, rfl, rfl, ?_⟩
+    · intro i hi
+      simp only [List.mem_cons, List.not_mem_nil, or_false] at hi
+      rcases hi with rfl | rfl
+      · exact hfv
+      · simp [Item.Valid, xcmpSyn]
+    · simp [xcmpCmdOf, lastSome, flagAction, hasFlag, optVal, asmOutNames]
+  have hsim : ∀ fs', hexsimMain sim (render (nonFiles items) ++ ["a.bin"]) fs' = ⟨1, fs', true, .none⟩ := by
+    intro fs'
+    unfold hexsimMain
+    have : render (nonFiles items) ++ ["a.bin"] = render (nonFiles items ++ [.file "a.bin"]) := by
+      rw [render_append]; rfl
+    rw [this, hexsimLoop_render _ (valid_sim_of_xrun items hv), cyclesParse_nonFiles_append, hc]
+    simp
+  simp only [hr, xcmpMain_of_line xc fs hx, true_and]
+  by_cases hs : XcmpSucceeds xc fs ⟨.binary, false, f, "a.bin"⟩
+  · have h0 := (xcmpBody_status xc fs _).mpr hs
+    simp [Result.andThen, h0, hsim]
+  · rw [xcmpBody_binary_rejected xc fs _ rfl hs]
+    simp [Result.andThen]
+
 end Hex.Cli
